@@ -138,6 +138,13 @@ def summarize(prop, tier, seed, hs, by_h, engine_b=None, wall_s=0.0, extra_assum
                              % (prop, h.id, json.dumps(b)[:500]))
         for e in errors:
             lines.append("HARNESS-ERROR property=%s harness=%s %s" % (prop, h.id, e[:600]))
+        flaky = [r for r in rs if r.get("flaky")]
+        if flaky:
+            hev["flaky_shards"] = len(flaky)
+            hev["flaky_detail"] = flaky[0]["flaky"]
+            lines.append("NOTE property=%s harness=%s %d shard(s) lost their search tree %d times in a row (CrossHair "
+                         "NotDeterministic; seen under machine overload) and count as not exhausted"
+                         % (prop, h.id, len(flaky), flaky[0].get("attempts", 0)))
         if hev["ok"] == 0 and hev["paths"] > 0 and not errors and n_viol == 0 and n_known == 0:
             lines.append("HARNESS-ERROR property=%s harness=%s vacuous: no path reached the oracle"
                          % (prop, h.id))
